@@ -186,7 +186,7 @@ impl Connection {
                 final(self).local_state == ConnectionState::End
                 && (match close.error { Some(e) => r == Err::<(), CloseError>(ConnectionStateError::RemoteClosedWithError(e)), None => r is Ok }),
             _ => r == Err::<(), CloseError>(ConnectionStateError::IllegalState) && final(self).local_state == old(self).local_state,
-        },                                                                                                             // [C12.close-received] a peer close moves to CloseReceived (to be answered) or completes ours; the peer's error is what is reported
+        },                                                                                                             // [C12.close-received] a peer close moves to CloseReceived (to be answered) or completes ours; the peer's error is what is reported [C14.close.peers-answering-close-completes-ours] -- with or without an error in it: otherwise the engine goes on waiting for a close that has already arrived, `close()` / `on_close()` never return and the stop reason is never published
         *final(self) == (Connection { local_state: final(self).local_state, ..*old(self) }),
 //@@ end
 
